@@ -6,6 +6,7 @@ HOOK_COMMITS = ["afa3aa0"]
 # property -> (Lean module, [theorems that decide it]); audited with `#print axioms` on every run
 THEOREMS = {
     "C06": ("TrVerif.Props.C06", ["Tr.C06_totals"]),
+    "C19": ("TrVerif.Props.C19", ["Tr.C19_summary", "Tr.C19_handlers_mirror"]),
 }
 
 _CORR = ("Residual risk = model != code, measured on every run by the correspondence (seeded generators -> C++ harness built from "
